@@ -1069,6 +1069,88 @@ func runOverlap(c *vlib.Ctx, mode, path string, mut Op) {
 	}
 }
 
+// runLoadWindow: the check misses every cache and loads the token's RBAC rows; while it
+// is between that load and the insert into the token-data cache (a bounded delay at
+// the hook point rbac.token_data.loaded), the mutation is started. In the code as it
+// stands the load runs under the token-cache lock, so the mutation's invalidation
+// waits and then removes what the check inserted; a load outside that lock lets the
+// mutation finish first and the stale rows stay cached. Only a check that starts after
+// the mutation returned is constrained.
+func runLoadWindow(c *vlib.Ctx, mode, path string, mut Op) {
+	e := newEnv(mode)
+	defer e.close()
+	h := newHist(e, 7)
+	for _, o := range scenario() {
+		o := o
+		h.exec(&o)
+		if o.Err != "" {
+			panic("scenario op failed: " + o.String() + ": " + o.Err)
+		}
+	}
+	info := e.am.VerifyToken(h.toks[0].value)
+	if info == nil {
+		panic("scenario token does not verify")
+	}
+	e.rm.InvalidateAllCache() // cold: the check has to load the token's rows
+	req := &auth.PermissionCheckRequest{TokenInfo: info, Database: "prod_eu", Measurement: "", Permission: "write"}
+	const point = "rbac.token_data.loaded"
+	loaded := make(chan struct{}, 64)
+	verifhook.Set(point, verifhook.Rule{Action: "call", Fn: func(string) error {
+		select {
+		case loaded <- struct{}{}:
+		default:
+		}
+		time.Sleep(40 * time.Millisecond)
+		return nil
+	}})
+	defer verifhook.Clear(point)
+	got := make(chan bool, 1)
+	go func() {
+		if path == "batch" {
+			got <- e.rm.CheckPermissionsBatch([]*auth.PermissionCheckRequest{req})[0].Allowed
+		} else {
+			got <- e.rm.CheckPermission(req).Allowed
+		}
+	}()
+	select {
+	case <-loaded:
+	case <-time.After(20 * time.Second):
+		c.Inconclusive("load-window schedule: check never reached " + point)
+		<-got
+		return
+	}
+	h.exec(&mut) // started while the check sits between its load and the cache insert
+	before := <-got
+	verifhook.Clear(point)
+
+	ninfo := e.am.VerifyToken(h.toks[0].value)
+	var after bool
+	if ninfo != nil {
+		nreq := &auth.PermissionCheckRequest{TokenInfo: ninfo, Database: "prod_eu", Measurement: "", Permission: "write"}
+		if path == "batch" {
+			after = e.rm.CheckPermissionsBatch([]*auth.PermissionCheckRequest{nreq})[0].Allowed
+		} else {
+			after = e.rm.CheckPermission(nreq).Allowed
+		}
+	}
+	fresh := e.freshRBAC()
+	defer fresh.Close()
+	want := false
+	if row, _ := e.am.GetTokenByID(h.toks[0].id); row != nil && row.Enabled && ninfo != nil {
+		want = fresh.CheckPermission(&auth.PermissionCheckRequest{TokenInfo: row, Database: "prod_eu", Measurement: "", Permission: "write"}).Allowed
+	}
+	c.Eval()
+	c.Count("load_window_schedules", 1)
+	if before && !want {
+		c.Nontrivial("loadwindow|" + mode + "|" + path + "|" + mut.String())
+	}
+	if after != want {
+		c.Violation(fmt.Sprintf("mutation that completes while a check is loading the token's RBAC rows is not reflected by later checks: stale rows stay in the token-data cache (%s path)", path),
+			c20Overlap{Mode: mode, Path: path, Mutation: mut, Parked: point + " (bounded delay)", Before: before, After: after, Expected: want,
+				Note: "the delayed check started before the mutation; only the check started after the mutation returned is constrained"})
+	}
+}
+
 // ---------------------------------------------------------------------------
 // Entry point
 // ---------------------------------------------------------------------------
@@ -1102,8 +1184,12 @@ func checkC20(c *vlib.Ctx) {
 		if len(r.History) == 0 {
 			var o c20Overlap
 			_ = vlib.LoadReplay(c.Replay, &o)
-			runOverlap(c, o.Mode, o.Path, o.Mutation)
-			runOverlap(c, o.Mode, o.Path, o.Mutation)
+			if strings.HasPrefix(o.Parked, "rbac.token_data.loaded") {
+				runLoadWindow(c, o.Mode, o.Path, o.Mutation)
+			} else {
+				runOverlap(c, o.Mode, o.Path, o.Mutation)
+				runOverlap(c, o.Mode, o.Path, o.Mutation)
+			}
 			c.Floor(0)
 			return
 		}
@@ -1167,6 +1253,7 @@ func checkC20(c *vlib.Ctx) {
 				{Kind: "RoleUpdate", A: 0, P: []string{"read"}}, {Kind: "TeamDelete", A: 0}, {Kind: "OrgDelete", A: 0},
 			} {
 				runOverlap(c, mode, path, m)
+				runLoadWindow(c, mode, path, m)
 			}
 		}
 	}
